@@ -67,6 +67,7 @@ type leaseCut struct {
 	shape  string
 	healSeq uint64
 	goneT  int64 // when the incarnation crashed / was shut down
+	void   bool
 }
 
 type pvIso struct {
